@@ -85,6 +85,7 @@ Verdict(c) ==
       exact == Worst({r[1] : r \in res})
       rounded == Worst({r[2] : r \in res})
       nlims == TLCEval([a \in 1..NAxes(c) |-> NLim(c.lims[a])])
+      fi == InstantiateFvsIdeal(font, NormLimits(font, ulims))      \* feature variations without D-FV1
   IN IF ~WellFormedLimits(font, ulims) THEN "malformed-limits"
      ELSE IF ~AxesCorrect(ulims, fr) THEN "AxesCorrect"
      ELSE IF ~Static(ulims, fr) THEN "Static"
@@ -94,6 +95,8 @@ Verdict(c) ==
      ELSE IF \E k \in 1..Len(fr.vars) : \E a \in 1..Len(fr.axes) :
                LET t == fr.vars[k][1][a] IN ~(RLe(RInt(-1), t[1]) /\ RLe(t[3], ROne))
           THEN "TentsInRange"
+     ELSE IF Len(font.fvs) > 0 /\ \E u \in Locs(c.lims) :
+               ActiveSubN(fi, NormLoc(fx, ProjLoc(ulims, u))) # ActiveSub(font, u) THEN "FeatureVarsIdeal"
      ELSE IF \E r \in res : ~r[3]
           THEN (IF FvDeviation(font.fvs, NormLimits(font, ulims)) THEN "FeatureVars:applied-record-without-remaining-conditions"
                 ELSE "FeatureVars")
@@ -107,7 +110,7 @@ Cov(c) ==
       lim == LimitAxesFrom(font.vars, nlims, 1)
       mer == Merge(lim)
       ex == InstantiateVarsExact(font.vars, nlims, Len(font.bases))
-      fv == FvLoop(font, nlims, 1, [recs |-> <<>>, applied |-> FALSE, defsub |-> font.defsub, universal |-> FALSE])
+      fv == FvLoop(font, nlims, 1, FvStart(font), FALSE)
       L == c.lims
   IN (IF \E a \in 1..Len(L) : L[a][1] = L[a][3] /\ L[a][1] # 0 THEN {"pin"} ELSE {})
      \cup (IF \E a \in 1..Len(L) : L[a][1] = L[a][3] /\ L[a][1] = 0 THEN {"drop"} ELSE {})
